@@ -96,11 +96,13 @@ def op_strategy(depth=1):
         st.fixed_dictionaries({"op": st.just("shape"), "d": hist.shape_strategy(2),
                                "dir": st.sampled_from(["cw", "ccw"])}),
     )
+    mv = st.one_of(mv, mv, mv, mv, mv, mv, st.just({"op": "other"}))
     if depth <= 0:
         return st.one_of(tr, mv, mv)
     inner = op_strategy(depth - 1)
     ctx = st.fixed_dictionaries({"op": st.just("tctx"),
                                  "body": st.lists(inner, max_size=4),
+                                 "to_identity": st.sampled_from([False, False, True]),
                                  "raise": st.sampled_from([False, False, True, "base"])})
     return st.one_of(tr, tr, mv, mv, mv, ctx)
 
@@ -110,6 +112,10 @@ class Runner:
         self.s = Session(dp=case["dp"])
         self.g = self.s.g
         self.m = Model()
+        # a named state saved before any transformation (the identity), for
+        # blocks that temporarily go back to machine coordinates
+        self.g.transform.save_state("id0")
+        self.m.apply_op("save_state", ["id0"])
         self.cl = cl
         self.synced = False
         self.maxc = 1.0
@@ -144,10 +150,22 @@ class Runner:
             self.synced = False
             self.t_ops += 1
             return
+        if name == "other":
+            from vf.statehist import other_builder_activity
+            other_builder_activity()      # transforms ANOTHER builder, saves a named state there
+            self.cl.add("other_builder_active")
+            return
         if name == "tctx":
             saved = m.clone()
             try:
                 with g.current_transform():
+                    if op.get("to_identity"):
+                        g.transform.restore_state("id0")
+                        self.m.apply_op("restore_state", ["id0"])
+                        self.cl.add("block_in_machine_coordinates")
+                        self.synced = False      # the transform just changed
+                        # e.g. a tool-change move in machine coordinates
+                        self.step({"op": "nudge", "axis": "x", "d": 1.0})
                     self.run(op["body"])
                     if op["raise"]:
                         raise hist.boom(op["raise"])
@@ -155,6 +173,9 @@ class Runner:
                 pass
             self.m = saved
             self.synced = False
+            if op.get("to_identity"):
+                # first move after the block: the outer transform is back in force
+                self.step({"op": "nudge", "axis": "y", "d": 0.5})
             return
         if name == "set_distance_mode":
             g.set_distance_mode(op["mode"])
